@@ -83,6 +83,8 @@ struct Inner {
     signature: u64,
     arrivals: u64,
     gate_timeouts: u64,
+    /// callbacks run (outside the director's lock, on the noting thread) when a note is recorded
+    note_hooks: Vec<(&'static str, Arc<dyn Fn(&[u64]) + Send + Sync>)>,
 }
 
 pub struct Director {
@@ -165,6 +167,13 @@ impl Director {
 
     pub fn gate_timeouts(&self) -> u64 {
         self.inner.lock().gate_timeouts
+    }
+
+    /// Run `cb` on the noting thread every time the note `point` is recorded (until the next
+    /// `reset`). Notes are emitted under the database mutex: the callback must not call into the
+    /// database and must not block; arming a file-system fault or bumping a counter is what it is for.
+    pub fn on_note(&self, point: &'static str, cb: Arc<dyn Fn(&[u64]) + Send + Sync>) {
+        self.inner.lock().note_hooks.push((point, cb));
     }
 
     pub fn set_delay(&self, point: &'static str, delay: Delay) {
@@ -342,6 +351,14 @@ impl Handler for Director {
         *inner.notes.entry(point).or_insert(0) += 1;
         if inner.note_log.len() < 200_000 {
             inner.note_log.push((point, args.to_vec()));
+        }
+        if inner.note_hooks.is_empty() {
+            return;
+        }
+        let hooks: Vec<_> = inner.note_hooks.iter().filter(|(p, _)| *p == point).map(|(_, cb)| Arc::clone(cb)).collect();
+        drop(inner);
+        for cb in hooks {
+            cb(args);
         }
     }
 }
